@@ -142,7 +142,7 @@ func funcOfDecl(pkg *packages.Package, fd *ast.FuncDecl) *flow.Func { return flo
 // c19target extracts what run is started on from its (non-callback) arguments: the key
 // expression and the constant prefix flag, given as separate arguments or as the fields of a
 // struct literal.
-func c19target(f *flow.Func, args []ast.Expr) (key ast.Expr, prefix, prefixConst bool, cb ast.Expr, ok bool) {
+func c19target(f *flow.Func, args []ast.Expr, enumT types.Type, meaning func(string) bool) (key ast.Expr, prefix, prefixConst bool, cb ast.Expr, ok bool) {
 	ok = true
 	sawBool := false
 	setBool := func(e ast.Expr) {
@@ -166,6 +166,14 @@ func c19target(f *flow.Func, args []ast.Expr) (key ast.Expr, prefix, prefixConst
 			key = a
 		case c19isBool(t):
 			setBool(a)
+		case enumT != nil && types.Identical(t, enumT):
+			// an enum-like scope constant: its meaning was learnt from pull
+			sawBool = true
+			if tv, okv := f.Info.Types[a]; okv && tv.Value != nil && meaning != nil {
+				prefix, prefixConst = meaning(tv.Value.ExactString()), true
+			} else {
+				prefixConst = false
+			}
 		default:
 			if _, isSig := t.Underlying().(*types.Signature); isSig {
 				cb = a
@@ -256,7 +264,15 @@ func c19Adapter(c *core.Ctx, r *c19run, pkg *packages.Package, fd *ast.FuncDecl,
 		}
 		return true
 	})
-	keyExpr, prefixVal, prefixConst, cbExpr, okT := c19target(f, ls[0].args)
+	var enumT types.Type
+	var meaning func(string) bool
+	if r.prefEnum {
+		enumT = r.prefObj.Type()
+		if r.prefKnown {
+			meaning = func(v string) bool { return (v == r.prefVal) == r.prefIs }
+		}
+	}
+	keyExpr, prefixVal, prefixConst, cbExpr, okT := c19target(f, ls[0].args, enumT, meaning)
 	if keyP == nil || chObj == nil || !okCh || !okT || keyExpr == nil || cbExpr == nil {
 		c.Undecide("R-C19-5", cons+"|run", pos(c, fd), "cannot identify the adapter's key parameter / returned channel / what run is started on")
 		return
@@ -272,7 +288,7 @@ func c19Adapter(c *core.Ctx, r *c19run, pkg *packages.Package, fd *ast.FuncDecl,
 		"run's key argument is the adapter's own parameter",
 		"run is started on something else than the key/prefix the caller asked for: the channel delivers the content of another key")
 	if !prefixConst {
-		c.Undecide("R-C19-5", cons+"|prefix flag matches the channel type", pos(c, run), "run's prefix argument is not a constant")
+		c.Undecide("R-C19-5", cons+"|prefix flag matches the channel type", pos(c, run), "run's prefix argument is not a constant (or the meaning of its enum constant could not be learnt from pull)")
 	} else {
 		pv := prefixVal
 		why := "a single-value channel is fed by a prefix syncer: every change of any key under the prefix re-delivers the unchanged value (consecutive snapshots equal)"
@@ -596,6 +612,47 @@ func c19CopyChecks(c *core.Ctx, r *c19run, cons string, g *flow.Func, root ast.N
 	valOK := true
 	var badStore ast.Node
 	vObj := c19obj(g, L.Value)
+	// derived: the expression is computed from the snapshot's entry for the loop's key — the
+	// loop's value variable, data[key], or a local of the loop body assigned from those
+	fromEntry := map[types.Object]bool{}
+	if vObj != nil {
+		fromEntry[vObj] = true
+	}
+	derived := func(e ast.Expr) bool {
+		uses := false
+		ast.Inspect(e, func(x ast.Node) bool {
+			switch t := x.(type) {
+			case *ast.Ident:
+				if o := g.Info.Uses[t]; o != nil && fromEntry[o] {
+					uses = true
+				}
+			case *ast.IndexExpr: // data[k] with k the loop's key
+				if isData(t.X) && c19obj(g, t.Index) != nil && c19obj(g, t.Index) == c19obj(g, L.Key) {
+					uses = true
+				}
+			}
+			return true
+		})
+		return uses
+	}
+	for changed := true; changed; {
+		changed = false
+		c19inspect(L.Body, func(n ast.Node) bool {
+			as, ok := n.(*ast.AssignStmt)
+			if !ok || len(as.Lhs) != len(as.Rhs) {
+				return true
+			}
+			for i, l := range as.Lhs {
+				if o := c19obj(g, l); o != nil && !fromEntry[o] && derived(as.Rhs[i]) {
+					if _, isIdx := ast.Unparen(l).(*ast.IndexExpr); !isIdx {
+						fromEntry[o] = true
+						changed = true
+					}
+				}
+			}
+			return true
+		})
+	}
 	c19inspect(L.Body, func(n ast.Node) bool {
 		if !isStore(n) {
 			return true
@@ -609,21 +666,7 @@ func c19CopyChecks(c *core.Ctx, r *c19run, cons string, g *flow.Func, root ast.N
 			if _, ok := ast.Unparen(l).(*ast.IndexExpr); !ok {
 				continue
 			}
-			uses := false
-			ast.Inspect(as.Rhs[i], func(x ast.Node) bool {
-				switch t := x.(type) {
-				case *ast.Ident:
-					if vObj != nil && g.Info.Uses[t] == vObj {
-						uses = true
-					}
-				case *ast.IndexExpr: // data[k] with k the loop's key
-					if isData(t.X) && c19obj(g, t.Index) != nil && c19obj(g, t.Index) == c19obj(g, L.Key) {
-						uses = true
-					}
-				}
-				return true
-			})
-			if !uses {
+			if !derived(as.Rhs[i]) {
 				valOK, badStore = false, n
 			}
 		}
